@@ -31,7 +31,7 @@ import random
 import select
 import socket
 import ssl
-from urllib.parse import parse_qs
+from urllib.parse import parse_qs, parse_qsl, quote, quote_plus, unquote, urlsplit
 
 from hio.base import tyming
 from hio.core.http import clienting
@@ -113,8 +113,30 @@ def gen_hop(rng, final, tls, allow_close, allow_other=True):
     close_mid = None
     if allow_close and rng.random() < 0.08:
         close_mid = rng.choice([0, 5, 17, 40, 90])
-    return {"status": status, "target": target, "delay": delay, "dribble": dribble, "framing": framing, "body": body,
-            "connclose": connclose, "close_mid": close_mid}
+    h = {"status": status, "target": target, "delay": delay, "dribble": dribble, "framing": framing, "body": body,
+         "connclose": connclose, "close_mid": close_mid}
+    if not final:
+        h.update(loc_decor(rng))
+    return h
+
+
+LOC_VALUES = ["ab+cd==", "a&b=c", "/home?a=1&b=2", "100%", "x;y", "frag#ment", "what?now", "a b", "50%25", "\u00fc=\u00e9",
+              "https://ex.test/p?x=1&y=%2F#top", "dGVzdA==", "+", "&", "=", "%", ";"]
+LOC_KEYS = ["token", "next", "q", "k=1", "a&b", "re turn", "sig"]
+LOC_EXTRAS_PLAIN = ["seg/ment", "100%", "a b", "per%25cent", "semi;colon", "\u00fc"]
+LOC_EXTRAS_DELIM = ["what?now", "frag#part"]
+
+
+def loc_decor(rng):
+    """escaped query arguments / an escaped extra path segment for a redirect Location"""
+    out = {}
+    if rng.random() < 0.35:
+        keys = rng.sample(LOC_KEYS, rng.randint(1, 3))
+        out["locq"] = [[k, rng.choice(LOC_VALUES)] for k in keys]
+        out["locenc"] = rng.choice(["percent", "plus"])
+    if rng.random() < 0.15:
+        out["locextra"] = rng.choice(LOC_EXTRAS_PLAIN + LOC_EXTRAS_PLAIN + LOC_EXTRAS_DELIM)
+    return out
 
 
 BKINDS = ["none", "absent", "body", "data", "fargs", "data+body"]
@@ -259,6 +281,7 @@ def cases(tier, seed, shard, nshards):
             k = rng.randrange(nreq)
             h = gen_hop(rng, False, tls, False)
             h["target"] = "downgrade"
+            h.pop("locextra", None)
             h["locform"] = rng.choice(DOWNGRADE_FORMS)
             h["close_mid"] = None
             reqs[k]["hops"] = [x for x in reqs[k]["hops"] if x["target"] is not None][:rng.choice([0, 0, 1])] + [h]
@@ -299,6 +322,8 @@ class World:
         self.outstanding = None       # (id, hop) whose response is not yet completely written
         self.server_closed = False    # a harness server closed a connection (after that: safety only)
         self.ports = {}
+        self.sent = {}                # (id, hop) -> status / headers / body the scripted server put on the wire
+        self.done = set()             # (id, hop) whose response was written completely
         self.client = None
         self.app_requests = None
         self.app_responses = None
@@ -555,7 +580,7 @@ class RawServer:
         path = msg.target.split("?")[0]
         parts = path.strip("/").split("/")
         hop = None
-        if len(parts) == 2 and parts[0][:1] == "h" and parts[0][1:].isdigit():
+        if len(parts) >= 2 and parts[0][:1] == "h" and parts[0][1:].isdigit():
             hop = int(parts[0][1:])
         key = (rid, hop)
         w.ev("req", self.name, c.idx, msg.method, msg.target, rid)
@@ -588,6 +613,23 @@ class RawServer:
             w.ctx.count("request_sent_to_previous_redirect_target")
         if msg.method != req["method"]:
             w.ctx.count("hop_method_differs_from_original")
+        if hop > 0 and (rid, hop - 1) in w.issued:
+            # S7: the follow-up request asks for the resource the Location names (decoded path, ordered decoded qargs)
+            prev = req["hops"][hop - 1]
+            lsp = urlsplit(w.issued[(rid, hop - 1)])
+            tsp = urlsplit(msg.target)
+            want_path, got_path = unquote(lsp.path), unquote(tsp.path)
+            want_q = parse_qsl(lsp.query, keep_blank_values=True)
+            got_q = parse_qsl(tsp.query, keep_blank_values=True)
+            w.ctx.count("followup_request_targets_compared_with_location")
+            if prev.get("locq") or prev.get("locextra"):
+                w.ctx.count("followup_targets_with_escaped_reserved_characters")
+            if got_path != want_path:
+                w.viol("redirect-followed-to-other-resource:path-differs",
+                       f"Location {w.issued[(rid, hop - 1)]!r} names path {want_path!r}; the follow-up request line is {msg.target!r} (path {got_path!r}, qargs {got_q})")
+            elif got_q != want_q:
+                w.viol("redirect-followed-to-other-resource:query-arguments-differ",
+                       f"Location {w.issued[(rid, hop - 1)]!r} names qargs {want_q}; the follow-up request line is {msg.target!r} (qargs {got_q})")
         if hop == 0 and not early and bkind_of(req) == "big":
             w.ctx.count("upload_bodies_received_whole")
             if msg.body != upload_bytes(req, 0, req["biglen"]):
@@ -642,6 +684,8 @@ class RawServer:
             payload = bytes(payload)
         else:   # eof-delimited
             payload = body
+        w.sent[(rid, hop)] = {"status": status, "headers": [ln.split(": ", 1) for ln in lines[1:]],
+                              "body": b"" if head_only else body}
         data = ("\r\n".join(lines) + "\r\n\r\n").encode("latin-1") + payload
         close_mid = h["close_mid"]
         if close_mid is not None:
@@ -687,6 +731,7 @@ class RawServer:
                 w.ev("tx", self.name, c.idx, sent)
         if p["off"] >= len(p["data"]) and p["close_mid"] is None:
             w.ev("resp_done", self.name, c.idx, p["key"])
+            w.done.add(tuple(p["key"]))
             w.ctx.count("responses_completely_written")
             if w.outstanding == p["key"]:
                 w.outstanding = None
@@ -700,6 +745,11 @@ def location(w, req, hop, here):
     """Location header value of hop `hop` (a redirect) of request req, issued by server `here`."""
     h = req["hops"][hop]
     path = f"/h{hop + 1}/{req['id']}"
+    q = quote_plus if h.get("locenc") == "plus" else (lambda t: quote(t, safe=""))
+    if h.get("locextra"):               # an extra path segment with escaped characters
+        path += "/" + quote(h["locextra"], safe="")
+    if h.get("locq"):                   # query arguments with escaped reserved characters
+        path += "?" + "&".join(q(k) + "=" + q(v) for k, v in h["locq"])
     scheme = "https" if w.case["tls"] else "http"
     host = "localhost" if w.case["tls"] else "127.0.0.1"
     if h["target"] == "relative":
